@@ -67,6 +67,9 @@ def run(ctx):
                     env = {}
                     if (bit + w) % 3 == 0:
                         env = {'LBZIP2_VERIF_IN_GRANUL': str(rnd.choice([64, 1000, 4096]))}
+                    elif len(data) < 20000 and (bit + w) % 3 == 1:
+                        # parser suspended inside header / trailer fields
+                        env = {'LBZIP2_VERIF_IN_GRANUL': str(rnd.choice([4, 8, 12]))}
                     jobs.append((name, data, fname, at + bit, w, env))
 
     def one(j):
